@@ -124,8 +124,10 @@ def transcript(xml: Path, scratch: Path, tag: str, config) -> list:
         corpus = [str(wd.lemma()) for wd in w.words()] * 2 + ['unknown-token']
         freq = wn.ic.compute(corpus, w)
         put(['ic', _items({p: _items(d) for p, d in freq.items()})])
-        for a in sss:
-            for b in sss:
+        # all pairs among at most ten synsets (first five and last five of the listing)
+        pss = sss if len(sss) <= 10 else sss[:5] + sss[-5:]
+        for a in pss:
+            for b in pss:
                 for root in (False, True):
                     put(['pair', a.id, b.id, root,
                          _err(lambda: _ids(a.shortest_path(b, simulate_root=root))),
